@@ -40,7 +40,8 @@ Dec(a) == IF I64IsNeg(a) THEN "-" \o DecU(I64Neg(a)) ELSE DecU(a)   \* Neg(MinI)
 
 \* printable ASCII, code 32 .. 126 (the corpus only uses these characters)
 Ascii == " !\"#$%&'()*+,-./0123456789:;<=>?@ABCDEFGHIJKLMNOPQRSTUVWXYZ[\\]^_`abcdefghijklmnopqrstuvwxyz{|}~"
-CharCode(c) == LET hits == {k \in 1..Len(Ascii) : SubSeq(Ascii, k, k) = c} IN IF hits = {} THEN 0 ELSE 31 + CHOOSE k \in hits : TRUE
+CharCode(c) == IF c = "\t" THEN 9 ELSE IF c = "\n" THEN 10 ELSE
+               LET hits == {k \in 1..Len(Ascii) : SubSeq(Ascii, k, k) = c} IN IF hits = {} THEN 0 ELSE 31 + CHOOSE k \in hits : TRUE
 Contains(h, n) == n = "" \/ \E k \in 1..(Len(h) - Len(n) + 1) : SubSeq(h, k, k + Len(n) - 1) = n
 IsDigitStr(x) == x # "" /\ \A k \in 1..Len(x) : CharCode(SubSeq(x, k, k)) >= 48 /\ CharCode(SubSeq(x, k, k)) <= 57
 RECURSIVE ParseU(_, _, _)
